@@ -53,7 +53,7 @@ var tvMenuFull = []tvForm{
 	{"s", "s"}, {"s2", "s2"}, {"strlit", `"ab"`}, {"ns", "ns"}, {"fs", "fs()"},
 	{"b", "b"}, {"b2", "b2"}, {"nb", "nb"}, {"fb", "fb()"},
 	{"xs", "xs"}, {"nxs", "nxs"}, {"arr", "arr"}, {"parr", "parr"}, {"m", "m"}, {"nm", "nm"}, {"fxs", "fxs()"},
-	{"f", "f"}, {"nf", "nf"}, {"t", "t"}, {"pt", "pt"}, {"sti", "st.i"}, {"sts", "st.s"}, {"tmp", "tmp"}, {"ok", "ok"},
+	{"f", "f"}, {"nf", "nf"}, {"t", "t"}, {"pt", "pt"}, {"sti", "st.i"}, {"sts", "st.s"}, {"tmp", "tmp"}, {"ok", "ok"}, {"nil", "nil"},
 }
 
 func tvMenu(names ...string) []tvForm {
@@ -66,6 +66,18 @@ func tvMenu(names ...string) []tvForm {
 		}
 	}
 	return out
+}
+
+var (
+	tvClean       = []*regexp.Regexp{regexp.MustCompile(`,\s*\)`), regexp.MustCompile(`\(\s*,\s*`), regexp.MustCompile(`\{\s*;`), regexp.MustCompile(`;\s*;`), regexp.MustCompile(`;\s*\}`)}
+	tvPkgQual     = regexp.MustCompile("\\b([a-z]\\w*)\\.(\x00|[A-Z])")
+	tvBuiltinCall = map[string]*regexp.Regexp{}
+)
+
+func init() {
+	for name := range tvNamesakes {
+		tvBuiltinCall[name] = regexp.MustCompile(`(^|[^\w.$])` + name + `\(`)
+	}
 }
 
 // an unrelated statement planted where a pattern has a statement wildcard
@@ -163,6 +175,23 @@ func tvFile(pkgName, env, body string, extra string) string {
 			used[mm[1]] = true
 		}
 	}
+	// pkgvar:<pkg>:<result type>: the package's name denotes a variable of a user type whose
+	// methods share the spelling of the package's functions; the package is not imported
+	if strings.HasPrefix(env, "pkgvar:") {
+		p := strings.SplitN(strings.TrimPrefix(env, "pkgvar:"), ":", 2)
+		delete(used, p[0])
+		var decl strings.Builder
+		decl.WriteString("type gsxPkgNS struct{}\n")
+		seenM := map[string]bool{}
+		for _, mm := range regexp.MustCompile(`\b`+p[0]+`\.([A-Z]\w*)`).FindAllStringSubmatch(body, -1) {
+			if !seenM[mm[1]] {
+				seenM[mm[1]] = true
+				fmt.Fprintf(&decl, "func (gsxPkgNS) %s(a ...interface{}) (r %s) { gsxEvent(%q); return }\n", mm[1], p[1], p[0]+"."+mm[1])
+			}
+		}
+		fmt.Fprintf(&decl, "var %s gsxPkgNS\n", p[0])
+		extra += decl.String()
+	}
 	var names []string
 	for n := range used {
 		names = append(names, n)
@@ -199,7 +228,7 @@ type tvCand struct {
 var tvVarRE = regexp.MustCompile(`\$\*?[A-Za-z_]\w*|\$\$`)
 
 // tvInstantiate expands one pattern into candidate programs.
-func tvInstantiate(r *irRule, ridx int, pat string, quick bool) []*tvCand {
+func tvInstantiate(r *irRule, ridx int, pat string, quick bool, withPkgVar bool) []*tvCand {
 	// metavariable occurrences: named ones share a form, every $_ is independent
 	type slot struct {
 		name     string
@@ -247,6 +276,13 @@ func tvInstantiate(r *irRule, ridx int, pat string, quick bool) []*tvCand {
 			menu = tvMenu("tmp", "s", "s2", "i")
 		}
 	}
+	if withPkgVar {
+		// C20 asks who the callee is, not what the operands are: one small menu for every slot
+		menu = tvMenu("i", "lit0", "s", "strlit", "b", "xs", "m", "tmp", "t")
+		if nNamed >= 4 {
+			menu = tvMenu("tmp", "s", "s2", "i")
+		}
+	}
 	kind := "expr"
 	if _, err := parser.ParseExpr(strings.NewReplacer("\x00", "").Replace(strings.ReplaceAll(tmpl, "\x00", "x"))); err != nil || strings.Contains(pat, ";") {
 		kind = "stmts"
@@ -266,11 +302,26 @@ func tvInstantiate(r *irRule, ridx int, pat string, quick bool) []*tvCand {
 	envsOf := func(code string) []string {
 		envs := []string{"real"}
 		for _, name := range builtinNames {
-			if regexp.MustCompile(`(^|[^\w.$])` + name + `\(`).MatchString(code) {
+			if tvBuiltinCall[name].MatchString(code) {
 				envs = append(envs, "shadow:"+name)
 			}
 		}
+		if withPkgVar {
+			for _, mm := range tvPkgQual.FindAllStringSubmatch(tmpl, -1) {
+				if _, ok := tvPkgPaths[mm[1]]; ok && mm[1] != "time" {
+					for _, rt := range []string{"int", "*bool", "string"} {
+						envs = append(envs, "pkgvar:"+mm[1]+":"+rt)
+					}
+					break
+				}
+			}
+		}
 		return envs
+	}
+	// a metavariable in selector position after a package name ranges over a few function names
+	selector := map[string]bool{}
+	for _, mm := range regexp.MustCompile("\\b[a-z]\\w*\\.\x00(\\w+)\x00").FindAllStringSubmatch(tmpl, -1) {
+		selector[mm[1]] = true
 	}
 	var out []*tvCand
 	choice := make([]string, len(slots))
@@ -297,12 +348,26 @@ func tvInstantiate(r *irRule, ridx int, pat string, quick bool) []*tvCand {
 			}
 			c := code.String()
 			// an empty variadic leaves ", )" or "(, " behind
-			c = regexp.MustCompile(`,\s*\)`).ReplaceAllString(c, ")")
-			c = regexp.MustCompile(`\(\s*,\s*`).ReplaceAllString(c, "(")
-			c = regexp.MustCompile(`\{\s*;`).ReplaceAllString(c, "{")
-			c = regexp.MustCompile(`;\s*;`).ReplaceAllString(c, ";")
-			c = regexp.MustCompile(`;\s*\}`).ReplaceAllString(c, " }")
+			c = tvClean[0].ReplaceAllString(c, ")")
+			c = tvClean[1].ReplaceAllString(c, "(")
+			c = tvClean[2].ReplaceAllString(c, "{")
+			c = tvClean[3].ReplaceAllString(c, ";")
+			c = tvClean[4].ReplaceAllString(c, " }")
 			for _, env := range envsOf(c) {
+				if strings.HasPrefix(env, "pkgvar:") {
+					// a user method accepts anything: a few operand forms suffice
+					small := true
+					for _, v := range bind {
+						switch v {
+						case "i", "s", "b", "xs", "tmp", "0", "Bool", "Int", "String", "Index", "", `"n", false, "u"`:
+						default:
+							small = false
+						}
+					}
+					if !small {
+						continue
+					}
+				}
 				cand := &tvCand{Rule: r, RuleIdx: ridx, Pattern: pat, Env: env, Bind: bind, Kind: kind, Code: c}
 				var body string
 				if kind == "expr" {
@@ -327,6 +392,13 @@ func tvInstantiate(r *irRule, ridx int, pat string, quick bool) []*tvCand {
 			}
 			for _, v := range tvVariadicMenu {
 				choice[k] = v
+				rec(k + 1)
+			}
+			return
+		}
+		if selector[slots[k].name] {
+			for _, name := range []string{"Bool", "Int", "String", "Index"} {
+				choice[k] = name
 				rec(k + 1)
 			}
 			return
@@ -416,6 +488,11 @@ func tvClaimsOf(prop string, r *irRule) []tvClaim {
 		}
 	case "C20":
 		for _, p := range r.Patterns {
+			for _, mm := range regexp.MustCompile(`(^|[^\w.$])([a-z]\w*)\.(\$|[A-Z])`).FindAllStringSubmatch(p, -1) {
+				if _, ok := tvPkgPaths[mm[2]]; ok {
+					return []tvClaim{{Kind: "api"}}
+				}
+			}
 			// a callee metavariable that the filter pins to a builtin's spelling, or a builtin named literally
 			for _, mm := range regexp.MustCompile(`\$(\w+)\(`).FindAllStringSubmatch(p, -1) {
 				for name := range tvNamesakes {
@@ -875,8 +952,9 @@ func runRuleTV(prop string) func(rc *runCtx, ev *evidence) (int, bool) {
 			st.Rules++
 			for _, p := range r.Patterns {
 				st.Patterns++
-				cands := tvInstantiate(r, ri, p, quick)
+				cands := tvInstantiate(r, ri, p, quick, prop == "C20")
 				st.Instantiated += len(cands)
+				st.group(r.Group, "instantiations", len(cands))
 				if prop != "C20" && prop != "C12" && prop != "C10" {
 					// namesake environments only matter where the claim is about behaviour or identity
 					var keep []*tvCand
@@ -893,6 +971,7 @@ func runRuleTV(prop string) func(rc *runCtx, ev *evidence) (int, bool) {
 				byGroup[r.Group] = append(byGroup[r.Group], cands...)
 			}
 		}
+		rc.logf("RuleTV %s: grid built in %.1fs", prop, time.Since(t0).Seconds())
 		// 2. keep the well-typed ones (go/types, 16 workers)
 		srcImporterOnce.Do(initSrcImporter)
 		for _, g := range groups {
@@ -1226,6 +1305,36 @@ func tvJudge(prop string, c *tvCand, w tvWarning, rules []irRule, st *tvStats) [
 				st.group(g, "diagnostics_on_the_real_builtin", 1)
 				continue
 			}
+			if strings.HasPrefix(c.Env, "pkgvar:") {
+				pk := strings.SplitN(strings.TrimPrefix(c.Env, "pkgvar:"), ":", 2)[0]
+				// the package's function is a function of its arguments, the user's method an arbitrary event
+				sh := newSemShared()
+				cx := newSemCtx(sh, nil, nil)
+				real := cx.symbol("api_result", types.Typ[types.Int])
+				user := cx.symbol("call_"+pk+"_1", types.Typ[types.Int])
+				st.mu.Lock()
+				v, _, el := tvSolve(sh, "(distinct "+real.T+" "+user.T+")")
+				st.SolverSeconds += el
+				if v == "sat" {
+					st.Sat++
+				} else if v == "unsat" {
+					st.Unsat++
+				} else {
+					st.Unknown++
+				}
+				st.mu.Unlock()
+				if v != "sat" {
+					continue
+				}
+				if obj := tvQualifierAt(c, pk); obj != "" {
+					st.mu.Lock()
+					st.Confirmed++
+					st.mu.Unlock()
+					out = append(out, tvFinding{Prop: "C20", Group: g, Class: "namesake-pkg-" + pk, Src: c.Src,
+						Detail: fmt.Sprintf("`%s` is reported (%q) although %s here is %s, not the package", c.Code, w.Text, pk, obj)})
+				}
+				continue
+			}
 			name := strings.TrimPrefix(c.Env, "shadow:")
 			if !regexp.MustCompile(`(^|[^\w.])` + name + `\(`).MatchString(c.Code) {
 				continue
@@ -1495,6 +1604,28 @@ func tvCalleeAt(c *tvCand, name string) string {
 		if call, ok := n.(*ast.CallExpr); ok {
 			if id, ok := call.Fun.(*ast.Ident); ok && id.Name == name {
 				if _, isB := info.Uses[id].(*types.Builtin); !isB && info.Uses[id] != nil {
+					res = fmt.Sprintf("the user's %v", info.Uses[id])
+				}
+			}
+		}
+		return true
+	})
+	return res
+}
+
+// tvQualifierAt resolves the identifier pk used as a qualifier inside the planted code;
+// returns a description if it is not a package name.
+func tvQualifierAt(c *tvCand, pk string) string {
+	_, f, info, _, err := tvLoad(c.Src)
+	if err != nil {
+		return ""
+	}
+	fd, _ := tvTarget(f)
+	res := ""
+	ast.Inspect(fd, func(n ast.Node) bool {
+		if sel, ok := n.(*ast.SelectorExpr); ok {
+			if id, ok := sel.X.(*ast.Ident); ok && id.Name == pk {
+				if _, isP := info.Uses[id].(*types.PkgName); !isP && info.Uses[id] != nil {
 					res = fmt.Sprintf("the user's %v", info.Uses[id])
 				}
 			}
